@@ -188,5 +188,6 @@ func buildCases(th bool) ([]run.Case, map[string]any) {
 func TestC18(t *testing.T) {
 	env := run.GetEnv()
 	cases, params := buildCases(env.Thorough())
+	run.KeepGC = true
 	run.Main(t, "C18", cases, params)
 }
